@@ -258,7 +258,16 @@ def run(tier, t0):
             print('[C17] phase %s: %.1fs' % (name, _t.time() - _tp[0]), file=sys.stderr, flush=True)
         _tp[0] = _t.time()
 
-    k = many(prepare, [tier])[0]
+    try:
+        k = many(prepare, [tier])[0]
+    except Exception as e:
+        if not common.raised_inside_library(e):
+            raise
+        # the menu constants are derived with the library itself (public calls on all 120 face triangles in one process): if that already
+        # fails, a public call failed on a legitimate input after an ordinary history of other public calls
+        acc.violation(f'c17:prepare:{common.library_error_line(e)[:60]}', f'a public call raised {common.library_error_line(e)} while the event menu was being derived (cells and points on all 12 faces x 10 triangles, one process)',
+                      {'history': [], 'event': '<prepare>', 'prepare': True})
+        return common.finish(PID, LEVEL, tier, acc, t0, 'event menu construction failed; nothing else was explored', [], exhaustive=False)
     full = build_menu(k)
     by_name = {ev[0]: ev for ev in full}
     phase('prepare')
@@ -467,6 +476,15 @@ def replay(case):
                 raise res
             out[i] = res
         return out
+    if case.get('prepare'):
+        try:
+            many(prepare, ['quick'])
+            many(prepare, ['thorough'])
+        except Exception as e:
+            if not common.raised_inside_library(e):
+                raise
+            return [('c17:prepare', common.library_error_line(e))]
+        return []
     if 'abort' in case:
         k = many(prepare, ['thorough'])[0]
         full = build_menu(k)
